@@ -1,14 +1,91 @@
 """What MANIFEST.json claims per property (tools_manifest.py renders it)."""
 
+TECH = ('contract-based deductive verification: sidecar contracts on the real /repo functions, own AST->SMT '
+        'verification-condition generator (z3 5.1 / z3 4.8 / cvc5), obligations discharged function by function; '
+        'the same contracts evaluated at run time over enumerated small states as the bounded stand-in')
+TECH_B = ('contract-based: run-time evaluation of sidecar contracts (the property statement against an independent '
+          'oracle) on the real functions over an enumerated small scope - bounded stand-in, never counted as proved')
+
+NOTE_B = ('bounded stand-in only for the parts listed as bounded: holds on the enumerated scope, nothing is proved beyond it; '
+          '.pyx kernels judged on mechanically extracted source (compiled .so cannot be rebuilt here); numpy / scipy / '
+          'h5py / pandas / click trusted')
+
+
+def _b(text, note=NOTE_B, level='other', technique=TECH_B):
+    return dict(level=level, technique=technique, text=text, note=note)
+
+
 CHECKS = {
- 'C08': dict(
-  level='other',
-  technique='contract-based deductive verification (own AST->SMT VC generator on the real source) + bounded run-time contract evaluation',
-  text='Contracts of Table.filter/head/remove_empty and the _filter.pyx kernels. Bounded stand-in: the contract is '
-       'evaluated on the real functions for every matrix over {0,1,2} up to 2x2 (thorough 3x3) x every layout reachable '
-       'through the public API x every subset x invert x axis x inplace x ID-collection/predicate forms.',
-  note='bounded part is a stand-in, not a proof; .pyx kernels judged on mechanically extracted source; scipy/numpy trusted'),
+ 'C01': _b('Contract of to_hdf5 / from_hdf5 / load_table / parse_table (round trip = identity on views, values compared '
+           'bit for bit) evaluated on real files for every small table x layout x stored zeros x ID alphabet x metadata '
+           'kind x compression x loader. No function of this property is under a discharged deductive contract yet: '
+           'h5py I/O and float bit-exactness are outside the verifier (DESIGN.md 8/C01, 9).'),
+ 'C02': _b('Contract of to_json (string and direct_io form) and of the four readers: json.loads (independent) of the real '
+           'output equals the document described by the source view; adversarial header strings, values below 1e-6, '
+           'numpy scalars in metadata. Bounded only: string building / float formatting are outside the verifier.'),
+ 'C03': _b('Contract of to_tsv / from_tsv / _convert / load_table on real text (plain and gzip), incl. one metadata '
+           'category through formatter and inverse processor. Bounded only.'),
+ 'C04': _b('FileSpec21 (an independent decoder written from biom-2.1.rst with raw h5py) evaluated on every file written '
+           'by to_hdf5 / save_table / biom convert, incl. empty-axis and all-zero tables. Bounded only.'),
+ 'C05': _b('Representation invariant Inv and accessor agreement evaluated after every operation of the alphabet on every '
+           'small state, exhaustive histories to depth 2 (thorough 3, random to 8). Deductive part: the row-compaction kernel _remove_rows_csr (Tier P, see C08); '
+           'the errcheck machinery the invariant rests on is proved under C20; the Table methods themselves are bounded.'),
+ 'C06': _b('Contracts of sort / sort_order / align_to / transpose / copy / update_ids (permute or relabel only; inverse '
+           'laws) over all permutations of axes up to 4, injective / partial renamings, all layouts. Bounded only.'),
+ 'C07': _b('Frame and freshness contracts of every in-place-flag operation and every new-table operation: deep snapshots '
+           'of receiver and arguments, show-through test by in-place operations on the result. Deductive part: the frame '
+           '(modifies) clauses of the _filter / _transform kernels (Tier P); the Table-level pattern is bounded.'),
+ 'C08': dict(level='other', technique=TECH,
+  text='Tier P (proved for all inputs, no library axioms): _remove_rows_csr (row compaction keeps exactly the selected '
+       'rows, entry by entry, in order), _make_filter_array_general (predicate called once per id, in order, with the true '
+       'dense vector, id and metadata; result = truth xor invert) and, for C13, _transform - loop invariants over ghost '
+       'rank / kept-entry prefix functions. Bounded: the contract of Table.filter / head / remove_empty on every matrix '
+       'over {0,1,2} up to 2x2 (thorough 3x3) x every layout x every subset x invert x axis x inplace x ID forms.',
+  note='kernel proofs: C integers treated as mathematical, numpy slices modelled as copies, callbacks pure; _filter glue '
+       'and Table.filter are bounded, not proved; scipy conversions trusted'),
+ 'C09': _b('Contract of merge (pointwise sum over union / intersection, metadata policy, fast path = general path) over '
+           'pairs and k-tuples with disjoint / nested / partial / identical / permuted ID sets. Bounded only.'),
+ 'C10': _b('Contract of Table.concat / biom.concat (blocks unchanged, zero padding, disjointness refused) for k = 1..3 '
+           'operands, both axes. Bounded only.'),
+ 'C11': _b('Contracts of partition (exact split) and collapse (conservation; one-to-many add / divide) on exact '
+           '(integer / dyadic) values. Bounded only.'),
+ 'C12': _b('Contract of Table.subsample / biom.subsample / generate_subsamples (exactly n per vector, never more than the '
+           'original, retained = total >= n, by_id, same seed, input unchanged) over all count vectors up to length 3 '
+           'x n x axes x seeds; thorough adds an exact small-vector frequency check (6 sigma). The distributional conjunct '
+           'is not decided by contracts (DESIGN.md 9). Bounded only so far.'),
+ 'C13': dict(level='other', technique=TECH,
+  text='Tier P: _transform (f receives exactly the stored values of each vector as they were at entry, with its id and '
+       'metadata; results written back to the same positions; nothing else changes). Bounded: contract of Table.transform / '
+       'norm / pa / rankdata / _normalize_table over functions x axes x layouts x stored zeros.',
+  note='kernel proof as for C08; that the table hands the kernel a matrix without stored zeros in the layout matching the '
+       'axis is checked by the bounded tier only'),
+ 'C14': _b('Contract "subset while reading = read all, then filter" for from_hdf5(ids=) with / without metadata, '
+           'parse_table(ids=), _subset_table on JSON text (compact / spaced / indented) and HDF5, unknown-ID refusal. '
+           'Bounded only: the string scanners are outside the verifier.'),
+ 'C15': _b('Validator soundness on a mutation grammar (single mutations quick, double thorough) of written JSON / HDF5 '
+           'files, completeness on everything the writers produce, accepted => loads. Bounded only so far.'),
+ 'C16': _b('Contract of == / != / descriptive_equality (depends on content only; equivalence relation; accessors do not '
+           'change content; equal tables export equally) over equal-content routes x accessor interleavings, and all '
+           'single-difference pairs. Bounded only.'),
+ 'C17': _b('All accepted construction inputs agree pairwise; adjacency / uc importers; malformed input always rejected '
+           'with TableException. Bounded only (the error profile that turns a triggered structural '
+           'test into the table error is proved under C20).'),
+ 'C18': _b('Contracts of add_metadata / del_metadata (exactly the named ids and keys), MetadataMap.from_file on files from '
+           'the row grammar, _add_metadata. Bounded only.'),
+ 'C19': _b('Every summary / report figure / export equals the value computed from the dense view (non-square tables so '
+           'that axis mix-ups show). Bounded only. One known finding (pandas sparse fill value).'),
+ 'C20': dict(level='proof', technique=TECH,
+  text='Every function of biom/err.py is verified against its contract for all inputs (Tier P): _create_error_states, '
+       'ErrorProfile._handle_error / test / state setter / setcall / getcall, geterr, seterr, seterrcall, geterrcall, '
+       'errcheck and the errstate context manager (enter / normal exit / exceptional exit). The statement of C20 is the '
+       'conjunction of the postconditions of errcheck (configured reaction is what happens for exactly-one triggering '
+       'kind), seterr / state setter (unknown kinds or reactions refused, profile unchanged) and errstate (override in '
+       'force, previous profile restored on both exits). The bounded scopes are the CPython cross-check of the same '
+       'statements and of the assumed module invariant.',
+  note='trusted: semantics of dict / sorted / contextlib.contextmanager / warnings.warn / sys.stdout.write as listed in the '
+       'evidence; the module-level profile invariant (seven registered kinds) is assumed by the proofs and re-checked '
+       'natively on every run; registered test predicates and callbacks assumed pure / non-reentrant; register / '
+       'unregister are not under contract'),
 }
 
-_PENDING = 'check under construction in this session (listed so that MANIFEST.json stays valid); see DESIGN.md 8'
-NOT_APPLICABLE = {('C%02d' % k): _PENDING for k in range(1, 21) if ('C%02d' % k) not in CHECKS}
+NOT_APPLICABLE = {}
